@@ -40,14 +40,31 @@ Item(x) ==
     [] OTHER -> [k |-> "eof"]
 
 TrPeer == IsEv("peer") /\ PeerSend(Item(Trace[l].item))
-TrFault == IsEv("fault") /\ Fault
-TrCancel == IsEv("cancel") /\ Cancel
+(* A fault / cancellation that strikes after the call has already decided to fail (e.g. while  *)
+(* the writer of a partial advertisement is closed after a failed List step) changes nothing.  *)
+TrFault == IsEv("fault") /\ (Fault \/ (result = "err" /\ UNCHANGED vars))
+TrCancel == IsEv("cancel") /\ (Cancel \/ (result = "err" /\ UNCHANGED vars))
 TrHdrOut == IsEv("hdr_out") /\ SendHeader
 TrFeaturesOut ==
-  /\ IsEv("features_out") /\ Advertise
+  /\ IsEv("features_out") /\ AdvertiseOK
   /\ LET L == Trace[l].list IN
      /\ {L[i].f : i \in 1..Len(L)} = cache'
      /\ \A i \in 1..Len(L) : L[i].req = Kind(L[i].f).lreq
+(* List / Parse steps of the instrumented features (a successful one leaves the state as *)
+(* it is; the advertisement it belongs to is judged at features_out / ReadFeatures).     *)
+TrList ==
+  /\ IsEv("list")
+  /\ LET f == Trace[l].f IN
+     IF Trace[l].ok
+     THEN /\ role = "recv" /\ phase = "advertise" /\ f \in cfg /\ MasksHold(f, bits) /\ UNCHANGED vars
+     ELSE ListFail(f)
+TrParse ==
+  /\ IsEv("parse")
+  /\ LET f == Trace[l].f IN
+     IF Trace[l].ok
+     THEN /\ role = "init" /\ phase = "features" /\ f \in cfg /\ inbox # <<>>
+          /\ (IF inbox # <<>> THEN Head(inbox).k = "features" ELSE FALSE) /\ UNCHANGED vars
+     ELSE ReadFeaturesP(f)
 TrNegotiate ==
   /\ IsEv("negotiate") /\ ToSet(Trace[l].bits) = bits
   /\ LET f == Trace[l].f IN
@@ -64,7 +81,7 @@ TrReturn ==
 
 (* steps of the session that leave no event of their own *)
 Silent ==
-  /\ \/ ExpectHeader \/ ReadFeatures \/ SelectNone \/ Abort
+  /\ \/ ExpectHeader \/ ReadFeaturesP("none") \/ SelectNone \/ Abort
      \/ Await /\ result' = "err"
   /\ UNCHANGED l
 
@@ -75,7 +92,7 @@ Inv == /\ C01_Eligible /\ C01_ForcedOnlyTLS /\ C01_ReadyComplete /\ C01_OkMeansR
 TNext ==
   /\ l < EndOf(t0)
   /\ \/ TrReset \/ TrPeer \/ TrFault \/ TrCancel \/ TrHdrOut \/ TrFeaturesOut
-     \/ TrNegotiate \/ TrNegRet \/ TrReturn \/ Silent
+     \/ TrNegotiate \/ TrNegRet \/ TrList \/ TrParse \/ TrReturn \/ Silent
   /\ UNCHANGED t0
   /\ Inv'
   /\ (phase # "idle" => bits \subseteq bits')
